@@ -860,6 +860,23 @@ class Builder:
             self.add(g, prog, serialise_chunks(prog.phys, r, cuts, eol, nl, emp), 'chunks',
                      f'cuts={cuts} eol={eol} chunk_newlines={nl} empties={emp}', True, invalid=invalid)
 
+    def fam_bracket(self, g, prog):
+        """white space (or a continuation break) directly after the `[` of a bracketed variable name is not part of the name"""
+        for li, line in enumerate(prog.phys):
+            if is_skip(line) or line.rstrip().endswith('\\'):
+                continue
+            raw = _lex_raw(line)
+            if not raw:
+                continue
+            for kind, text, a, b in raw:
+                if kind != 'brk':
+                    continue
+                for w, what in ((' ', 'a blank'), ('\t ', 'tab and blank'), (' \\\n    ', 'a continuation break')):
+                    new = line[:a + 1] + w + line[a + 1:]
+                    ph = prog.phys[:li] + new.split('\n') + prog.phys[li + 1:]
+                    self.add(g, prog, self.plain(ph), 'bracket-ws', f'{what} after the [ of {text!r} in line {li}', False,
+                             nbreaks=1 if '\n' in w else 0)
+
     def fam_comments(self, g, prog, r, count, invalid=False):
         for _ in range(count):
             ph, n = t_comments(prog.phys, r)
@@ -984,6 +1001,7 @@ class Builder:
             self.fam_comments(g, prog, r, 4 if q else 20)
             self.fam_indent(g, prog, r, 4 if q else 20)
             self.fam_tok(g, prog, r, 8 if q else 40)
+            self.fam_bracket(g, prog)
         for style in ('compact', 'single', 'wide', 'tab'):
             ph, _ = self.plan_phys(prog, self.plan_style(prog, style))
             self.add(g, prog, self.plain(ph), 'ws-style', f'all gaps {style}', False)
